@@ -556,6 +556,9 @@ func (fr *Frame) applyContract(st *State, sp *FuncSpec, fn *ssa.Function, sig *t
 			}
 			continue
 		}
+		if c.Assumed {
+			r.assumed["postulate of "+sp.Name+" (used by callers, not checked against the body): "+c.Text] = true
+		}
 		r.assume(st, f)
 	}
 	if fr.top && len(sp.Ensures) > 0 {
@@ -1160,7 +1163,11 @@ func (fr *Frame) siteGeneric(st *State, kind, name string, extra map[string]Val)
 			fr.run.eng.bindError(fr.spec, ss.Clause, err)
 			continue
 		}
-		fr.run.oblige(st, "assert@"+kind, labelOr(ss.Clause, 0), ss.Clause.Text, f)
+		lbl := labelOr(ss.Clause, 0)
+		if kind == "return" {
+			lbl = fmt.Sprintf("%s.b%d", lbl, fr.retBlock) // name the return instruction by its SSA block
+		}
+		fr.run.oblige(st, "assert@"+kind, lbl, ss.Clause.Text, f)
 		fr.run.assume(st, f) // proved here, usable afterwards
 	}
 }
